@@ -154,6 +154,15 @@ func brokerPayload(tag string) []byte {
 	return b
 }
 
+// wireTopic expands the level names that stand for long levels: "LONG" is a level of 130 characters (with it a request's
+// remaining length needs two bytes, while other entries of the request may be shorter than its fixed header)
+func wireTopic(t string) string {
+	if !strings.Contains(t, "LONG") {
+		return t
+	}
+	return strings.ReplaceAll(t, "LONG", strings.Repeat("l", 130))
+}
+
 var payloadTags = []string{"x", "y", "z", "w", "w1", "w2", "w3", "B", "B2", "M", "p1", "p2"}
 
 func tagOf(b []byte) string {
@@ -710,7 +719,7 @@ func runBehaviour(steps []bStep, auth string, maxqos int, res *Result) *brokerMi
 		case "subscribe":
 			body := []byte{byte(a.ID >> 8), byte(a.ID)}
 			for _, rq := range a.Req {
-				body = append(append(body, lp([]byte(rq.F))...), byte(rq.Q))
+				body = append(append(body, lp([]byte(wireTopic(rq.F)))...), byte(rq.Q))
 			}
 			if _, err := r.conns[a.C].c.Write(pkt(0x82, body)); err != nil {
 				return &brokerMismatch{where + ": write: " + err.Error(), "C05"}
@@ -718,7 +727,7 @@ func runBehaviour(steps []bStep, auth string, maxqos int, res *Result) *brokerMi
 		case "unsubscribe":
 			body := []byte{byte(a.ID >> 8), byte(a.ID)}
 			for _, f := range a.Fs {
-				body = append(body, lp([]byte(f))...)
+				body = append(body, lp([]byte(wireTopic(f)))...)
 			}
 			if _, err := r.conns[a.C].c.Write(pkt(0xa2, body)); err != nil {
 				return &brokerMismatch{where + ": write: " + err.Error(), "C05"}
